@@ -171,6 +171,13 @@ def _run(tier, replay):
     ctx.add_part("vector replay", vectors=want, evaluations=s["evaluations"], serialise_parse_roundtrips_on_real_code=s["roundtrips"],
                  mismatches=s["mismatches"], attributed=s["dev_hits"])
     report_harness(ctx, s, "vectors")
+    if s.get("notes"):
+        ctx.drift("status table", "status.rs and the spec's table differ in which codes exist (%s); the property speaks of the codes Humphrey models, "
+                  "so this is a gap of the check's table, not a violation; vectors for codes without a variant were skipped"
+                  % ", ".join(str(x["code"]) for x in s["notes"][:12]), {"kind": "codes-domain", "notes": s["notes"]})
+    if s.get("unconsumed_tail_cases"):
+        ctx.drift("parser", "%d parse(s) returned the right response but left the last bytes of the message (the CRLF after the last chunk) unread"
+                  % s["unconsumed_tail_cases"], None)
     ctx.add_part("binding self-test", **selftest(hbin, vectors))
 
     # ---- the client against the scripted server -------------------------------------------------------------
@@ -194,6 +201,9 @@ def _run(tier, replay):
         for x in cs["samples"][:2]:
             ctx.sample(x, limit=8)
         ctx.add_part("client replay", behaviours=len(beh), runs=cs["evaluations"], tcp_connections=cs["connections"], mismatches=cs["mismatches"])
+        if cs.get("followed_optional_3xx"):
+            ctx.drift("client", "%d behaviour(s): a final 300/303/305 carrying a Location was followed to where it points (the code model returns it as "
+                      "it is; the statement allows either)" % cs["followed_optional_3xx"], None)
         if cs["mismatches"]:
             ctx.violation("client: %d behaviour(s) did not end at the response the model predicts; first: %s" % (cs["mismatches"], json.dumps(cs["first"][0])[:1500]),
                           {"kind": "client", "mode": "client", "stdin": [x for x in beh if x["script"] == cs["first"][0]["script"]][:1], "first": cs["first"]})
@@ -237,6 +247,8 @@ def _run(tier, replay):
     if verdict["CrlfAfterBody"]:
         ctx.violation("CRLF follows a non-empty body in %d random serialisations (bytes beyond the message; Trace_HttpResp attributes exactly this)" % verdict["CrlfAfterBody"],
                       {"kind": "trace", "record": json.loads(lines[verdict["first_CrlfAfterBody"] - 1])}, dev="CrlfAfterBody")
+    if verdict.get("unconsumed_tail"):
+        ctx.drift("parser", "%d random parse(s) returned the right response but left the last bytes of the message unread" % verdict["unconsumed_tail"], None)
     if verdict["rejected"]:
         rej = verdict["rejected"]
         ctx.violation("%d+ random case(s) rejected by Trace_HttpResp; first: line %d (%s) fails %s" % (len(rej), rej[0]["line"], rej[0]["k"], rej[0]["fails"]),
@@ -263,6 +275,9 @@ def _run(tier, replay):
         ctx.cov["evaluations"] += nruns
         ctx.cov["traces_validated_against_impl"] += nruns
         ctx.add_part("random redirect scripts", runs=nruns, events=nev, rejected=len(verdict["rejected"]))
+        for d in verdict.get("drift", [])[:3]:
+            ctx.drift("client", "random redirect script, log line %d: %s (explained by the statement, not by Client.tla)" % (d["line"], d["what"]),
+                      {"kind": "trace", "mode": "trace-client", "seed": ctx.seed, "n": nruns, "drift": verdict["drift"]})
         if verdict["rejected"] or not verdict["complete"]:
             rej = verdict["rejected"]
             ctx.violation("client event log not explained by Client.tla; first: %s" % json.dumps(rej[:1])[:1200],
@@ -278,11 +293,14 @@ def _run(tier, replay):
     ctx.cov["exhaustive"] = True
     ctx.assumptions += [
         "RenderResp / DenoteResp / Phrases in HttpRespSyntax.tla are the property's definition of a valid response message (RFC 7230/7231, RFC 6265)",
-        "for 413, 414, 416 the RFC 2616 and the RFC 7231 phrase are both accepted (DESIGN 5a)",
+        "for 413, 414, 416 the RFC 2616 and the RFC 7231 phrase are both accepted (DESIGN 5a), for 413 also the RFC 9110 phrase of today's IANA registry",
         "header lists are compared per case-insensitive name, values in order; order between different names is free; attribute order inside Set-Cookie is free",
         "bodiless statuses (1xx, 204, 205, 304) are generated without body and without framing header; a 304 carrying the Content-Length of the "
         "omitted representation is not generated",
-        "the client follows exactly 301, 302, 307; a final 303 with a Location must be returned as it is (DESIGN 8a)",
+        "the code model follows exactly 301, 302, 307; a client that also follows a final 300/303/305 carrying a Location is accepted and reported as SPEC-DRIFT",
+        "a sub-second Max-Age may come out truncated, rounded or rounded up; Set-Cookie attribute names and the SameSite value are compared case-insensitively",
+        "a message without framing header is delimited by the server closing: reading up to the EOF is accepted there; whether the last CRLF of a message is consumed is not compared",
+        "random redirect scripts have 0..5 hops (a client may cap longer chains); a run Client.tla cannot explain is judged by the statement itself (PropHolds)",
         "close-delimited bodies, unknown status codes and malformed messages are outside C07 (C09 / C03)",
         "body symbol mappings (a, LF) -> {(a,LF), (NUL,0xFF), (CR,LF), ('0',CR), (0x80,':')} stand for arbitrary bytes",
     ]
